@@ -565,10 +565,16 @@ def r5(ctx, F):
             ctx.violation('C07-R5', '%s:ok-shape' % mode, 'cannot identify the Ok(..) value of %s' % f.path, f.where())
             continue
         built = prov.strip(oks[0][4]['0'])
-        if built[0] != 'agg' or built[2] != adt:
-            ctx.violation('C07-R5', '%s:ok-shape' % mode, 'Ok value of %s is not a %s literal: %s' % (f.path, adt, prov.show(built, maxdepth=2)), f.where())
-            continue
-        fields = dict(built[4])
+        if built[0] == 'agg' and built[2] == adt:
+            fields = dict(built[4])
+        else:
+            # built step by step: a private constructor plus the builder's own setters and field assignments — read field by field through them
+            bi_ = prov.inline_all(F, oks[0][4]['0'], depth=5, _seen=(f.path,), only=lambda f_: (f_.get('impl_adt') or '') == adt and not f_.get('trait'))
+            names_ = F.adt_fields(adt) or []
+            fields = {fl: prov.project_field(bi_, fl) for fl in names_}
+            if not names_ or any(prov.strip(v_)[0] == 'unknown' for v_ in fields.values()):
+                ctx.violation('C07-R5', '%s:ok-shape' % mode, 'Ok value of %s is not a %s literal and cannot be resolved field by field: %s' % (f.path, adt, prov.show(built, maxdepth=2)), f.where())
+                continue
         # `..Self::from_map_or_attrs(x)` style: resolve fields taken from a local constructor call by inlining it
         for fk, fv in list(fields.items()):
             sv = prov.strip(fv, names=set())
